@@ -31,7 +31,10 @@ def harness(ctx, level, seed, n, outdir, extra='', corpus=None, binary='harness'
     for f in ('cases.txt', 'impl.txt', 'model.txt', 'stats.txt'):
         try: os.remove(os.path.join(outdir, f))
         except FileNotFoundError: pass
-    r = run(ctx, f'timeout 3000 ./harness/bin/{binary} {level} {seed} {n} {outdir} {extra}')
+    tmo = 6000 if ctx.tier == 'thorough' else 600
+    r = run(ctx, f'timeout -s QUIT {tmo} ./harness/bin/{binary} {level} {seed} {n} {outdir} {extra}')
+    if r.returncode in (124, 131, 2) and 'SIGQUIT' in (r.stderr or ''):
+        r.stderr = f'HANG: the harness did not finish within {tmo} s; goroutine dump (the first goroutine is the statement that never returned):\n' + (r.stderr or '')[:6000]
     if r.returncode != 0 and not (binary == 'harness-race' and 'DATA RACE' in (r.stderr or '')):
         return r
     # corpus: recorded histories (witnesses of findings, regressions of repaired defects, seeded
@@ -58,6 +61,14 @@ def harness(ctx, level, seed, n, outdir, extra='', corpus=None, binary='harness'
         r2.stderr = 'oracle: ' + r2.stderr
         return r2
     return r
+
+def harness_failed(res, r):
+    err = (r.stderr or r.stdout or '')
+    if err.startswith('HANG:'):
+        res.property_failures.append(dict(suite=res.name, case='(see the cases written so far in the suite output directory)',
+                                          what='a statement never returned (the run was stopped by the timeout)', impl=err[:6000]))
+    else:
+        res.mismatches.append(dict(suite=res.name, case='harness failed', impl=err[-2000:], model=''))
 
 def read_stats(outdir):
     st = {}
@@ -91,7 +102,7 @@ def l0_suite(funcs, quick=1500, thorough=40000, monitor=None, nontrivial_keys=No
         n = ctx.n(quick, thorough)
         r = harness(ctx, 'l0', ctx.seed_for('l0'), n, outdir)
         if r.returncode != 0:
-            res.mismatches.append(dict(suite=res.name, case='harness failed', impl=r.stderr[-2000:], model=''))
+            harness_failed(res, r)
             return res
         cases = open(f'{outdir}/cases.txt').read().splitlines()
         impl = open(f'{outdir}/impl.txt').read().splitlines()
@@ -163,7 +174,7 @@ def l1_suite(modes, quick=250, thorough=6000, monitor=None, name='l1'):
         n = ctx.n(quick, thorough)
         r = harness(ctx, {'l1c': 'l1c', 'l1f': 'l1f'}.get(name, 'l1'), ctx.seed_for(name), n, outdir, ' '.join(modes), corpus=name)
         if r.returncode != 0:
-            res.mismatches.append(dict(suite=res.name, case='harness failed', impl=(r.stderr or r.stdout)[-2000:], model=''))
+            harness_failed(res, r)
             return res
         cases = open(f'{outdir}/cases.txt').read().splitlines()
         impl = open(f'{outdir}/impl.txt').read().splitlines()
@@ -303,7 +314,7 @@ def l2_suite(profile, quick=60, thorough=1500, native=True, name=None, extra_mon
             first = (r.stderr or '').split('WARNING: DATA RACE', 2)[1][:3000]
             res.property_failures.append(dict(suite=res.name, case='threaded run', what=f'the race detector reported {races} data race(s)', impl=first))
         if r.returncode != 0 and not races:
-            res.mismatches.append(dict(suite=res.name, case='harness failed', impl=(r.stderr or r.stdout)[-2000:], model=''))
+            harness_failed(res, r)
             return res
         cases = open(f'{outdir}/cases.txt').read().splitlines()
         impl = open(f'{outdir}/impl.txt').read().splitlines()
@@ -673,10 +684,32 @@ register('C15', [l2_suite('conn', native=False, extra_monitor=lambda *a: (c15_mo
          ['write times have second granularity (SQLiteTimeFormat)'])
 register('C05', [l2_suite('tx', name='l2-tx'), l2_suite('multi', native=False, extra_monitor=c02_monitor, name='l2-multi')],
          ['SQLite calls xBegin once per transaction before the first xUpdate'])
-register('C12', [l2_suite('changes', native=False, name='l2-changes')], [])
+register('C12', [l2_suite('changes', native=False, name='l2-changes'), l1_suite(['rows'], name='l1f', quick=120)],
+         ['storage faults around the two version opens of a diff are injected at the kv level (L1); the SQL level runs fault-free'])
 register('C11', [l2_suite('changes', native=False, name='l2-changes'), l1_suite(['rows', 'plain'])], [])
 register('C16', [l2_suite('multi', native=False, extra_monitor=c02_monitor, name='l2-multi'), l0_suite(['nodecodec']), l1_suite(['rows'])], [])
-register('C14', [l1_suite(['rows', 'plain', 'cb'], name='l1f', quick=250)], [])
+def c14_monitor(ctx, res, case, impl_line, model_line, spec):
+    """an acknowledged commit whose contents a later open cannot find (the oracle marks the
+    operation: LIE:<op index>; the implementation agreed with the model on that operation)"""
+    if not spec:
+        return
+    iops = impl_line.split(' ; ')
+    for ent in spec:
+        if not ent.startswith('LIE:'):
+            continue
+        i = int(ent[4:])
+        if i < len(iops) and iops[i].split()[:1] == ['ok']:
+            m = dict(suite=res.name, case=case, op_index=i, impl=iops[i][:300],
+                     what='Commit reports success although the handle\'s contents are not in the bucket: a later open does not see the write')
+            kid = known_match(ctx, 'commit_after_failed_commit_reports_success')
+            if kid and ctx.prop == 'C14':
+                m['finding'] = kid; res.known_hits.append(m)
+            elif ctx.prop == 'C14':
+                res.property_failures.append(m)
+            return
+
+register('C14', [l1_suite(['rows', 'plain', 'cb'], name='l1f', quick=250, monitor=c14_monitor)],
+         ['faults are injected at the kv level (in-process store); hangs are bounded by the harness timeout'])
 # ---------------------------------------------------------------- C18 (node encryption)
 def c18_monitor(ctx, res, fn, case, impl, model, spec):
     t = case.split()
@@ -727,7 +760,7 @@ def c20_suite(quick=300, thorough=8000):
         n = ctx.n(quick, thorough)
         r = harness(ctx, 'l2c', ctx.seed_for('l2c'), n, outdir, '')
         if r.returncode != 0:
-            res.mismatches.append(dict(suite=res.name, case='harness failed', impl=(r.stderr or r.stdout)[-2000:], model=''))
+            harness_failed(res, r)
             return res
         cases = open(f'{outdir}/cases.txt').read().splitlines()
         impl = open(f'{outdir}/impl.txt').read().splitlines()
@@ -881,7 +914,7 @@ def l1s_suite(quick=400, thorough=20000):
         n = ctx.n(quick, thorough)
         r = harness(ctx, 'l1s', ctx.seed_for('l1s'), n, outdir, '', corpus='l1s')
         if r.returncode != 0:
-            res.mismatches.append(dict(suite=res.name, case='harness failed', impl=(r.stderr or r.stdout)[-2000:], model=''))
+            harness_failed(res, r)
             return res
         cases = open(f'{outdir}/cases.txt').read().splitlines()
         impl = open(f'{outdir}/impl.txt').read().splitlines()
